@@ -53,7 +53,8 @@ pub fn directories(tier: &str) -> Vec<(String, BackendCfg, Vec<Op>)> {
         mk(0, 1),
         vec![Op::Snap, ins(1, 1.0, 0.0, "a"), ins(2, 0.0, 1.0, "b"), Op::Del { id: 1 }, Op::UpdMeta { id: 2, m: meta1("t", "b2"), merge: true }, Op::Snap, ins(3, 1.0, 1.0, "c")],
     ));
-    if tier == "thorough" {
+    let _ = tier; // every directory shape is enumerated in both tiers (the tiers differ in the server-level slice)
+    {
         v.push((
             "auto-snapshots-interval-2".to_string(),
             mk(2, 1 << 20),
